@@ -1,7 +1,7 @@
 """Texts of MANIFEST.json per property (level claimed, trusted base)."""
 
 NOT_YET = {p: "not claimed yet: model and check are still being built in this round (see DESIGN.md section 5); no other technique is substituted" for p in
-           ["C01", "C02", "C03", "C04", "C05", "C06", "C07", "C08", "C11", "C12", "C14", "C15"]}
+           ["C01", "C02", "C03", "C04", "C05", "C06", "C07", "C08", "C12", "C14", "C15"]}
 
 TEXTS = {
     "C09": {
@@ -13,6 +13,11 @@ TEXTS = {
         "text": "Proof: the Go binary-search loops are modelled literally (BS.loop on Nat with hiX = high+1) and proved equal to a linear scan for every sorted list; C10_table for every block size (one entry per block included), C10_lookup_newest / C10_lookup_unique for every number of tables, any level layout, any bloom filter without false negatives, every (key, ts). Correspondence: real tables built, recovered from files and searched for every (key, ts) of generated universes, vs model and brute-force specification.",
         "note": "Trusted: Lean kernel, driver, harness. Tables are assumed strictly sorted (true of flush/compaction outputs: C17, C09_sorted_nonempty); the filter is an arbitrary predicate without false negatives (C16).",
         "technique": "Lean 4 proof of the literal binary-search loops and of lookup-over-all-tables + differential correspondence",
+    },
+    "C11": {
+        "text": "Proof: every layout is written out byte for byte (data block with prefix compression and 16 bit guard, index, footer, meta, the table file as table.Build lays it out, the recovery parser, wal framing with the thrift layout of Entry, the tolerant wal reader) and round-trip theorems C11_*_roundtrip hold for all inputs (empty/binary strings, any shared prefixes, every split into blocks); C11_wal_torn: a wal cut anywhere reads as a prefix. Correspondence: real encoders/decoders vs model byte for byte (S2 removed / supplied as a table), table.Build output identical to the model's file, real recovery of complete and cut files, wal read-back at random cut lengths, concurrent encoders whose results are re-checked, lengths around 2^16.",
+        "note": "Second sentence (returned bytes never change) is partial: proved on the ownership model Pool.lean (C11_result_not_pooled, C11_alias_witness) and tied statically (extractor: every encoder returns bytes.Clone) and dynamically (concurrent encoders); physical aliasing is a runtime fact. S2 and frugal are parameters/assumptions as stated.",
+        "technique": "Lean 4 round-trip proofs over byte-level codecs + differential byte-for-byte correspondence",
     },
     "C13": {
         "text": "Proof: the process loop is a fold over the FIFO mark sequence; C13_monotone, C13_never_passes (global begin/finish counts), C13_catches_up (matched counts), C13_wait (waiters released only when reached, never lost, blocked ones are below their index) hold for every sequence: repeated indices, out-of-order completion, Done without Begin, any number of marks in flight. Correspondence: real WaterMark vs model after every mark (VerifSync), bursts beyond the channel buffer, waiters.",
